@@ -30,25 +30,26 @@ def NoCycle (ns : List Node) : Prop := ∀ x, ¬ Reach ns x x
 /-- ordered by dependency -/
 def Ordered (ns : List Node) (a b : Label) : Prop := Reach ns a b ∨ Reach ns b a
 
-/-- the output path relative to the workspace root, as normalised components -/
-def outComps (t : Target) (o : Out) : List Bytes :=
-  normComps false (splitSlash t.label.pkg ++ splitSlash o.ident)
+/-- where the output is: the components of its path resolved from the workspace root and the package
+    (rooted normal form — no `.`, no `..`, no empty component) -/
+def outComps (ws : Bytes) (t : Target) (o : Out) : List Bytes :=
+  normComps true (splitSlash ws ++ (splitSlash t.label.pkg ++ splitSlash o.ident))
 
 /-- two outputs overlap: same image tag; same file; nested (or equal) directories; a file inside
-    (or equal to) a directory output -/
-def Overlap (t : Target) (o : Out) (u : Target) (q : Out) : Prop :=
+    (or equal to) a directory output — "inside" is the prefix relation on resolved components -/
+def Overlap (ws : Bytes) (t : Target) (o : Out) (u : Target) (q : Out) : Prop :=
   match o.kind, q.kind with
   | .docker, .docker => o.ident = q.ident
-  | .file, .file => outComps t o = outComps u q
-  | .dir, .dir => Inside (outComps t o) (outComps u q) ∨ Inside (outComps u q) (outComps t o)
-  | .dir, .file => Inside (outComps u q) (outComps t o)
-  | .file, .dir => Inside (outComps t o) (outComps u q)
+  | .file, .file => outComps ws t o = outComps ws u q
+  | .dir, .dir => outComps ws u q <+: outComps ws t o ∨ outComps ws t o <+: outComps ws u q
+  | .dir, .file => outComps ws t o <+: outComps ws u q
+  | .file, .dir => outComps ws u q <+: outComps ws t o
   | _, _ => False
 
 /-- two different targets, not ordered by dependency, with overlapping outputs -/
-def Conflict (ns : List Node) : Prop :=
+def Conflict (ws : Bytes) (ns : List Node) : Prop :=
   ∃ t u, Node.target t ∈ ns ∧ Node.target u ∈ ns ∧ t.label ≠ u.label ∧
-    ¬ Ordered ns t.label u.label ∧ ∃ o ∈ t.outs, ∃ q ∈ u.outs, Overlap t o u q
+    ¬ Ordered ns t.label u.label ∧ ∃ o ∈ t.outs, ∃ q ∈ u.outs, Overlap ws t o u q
 
 /-- an input that is absolute or leaves its package -/
 def InputEscapes (i : Bytes) : Prop :=
@@ -80,8 +81,8 @@ structure valid (ws : Bytes) (ps : List Pkg) : Prop where
   noDuplicate : NoDuplicate (allNodes ps)
   depsDefined : DepsDefined (allNodes ps)
   noCycle : NoCycle (allNodes ps)
-  noConflict : ¬ Conflict (allNodes ps)
-  inputs : ∀ t, Node.target t ∈ allNodes ps → ∀ i ∈ t.inputs, ¬ InputEscapes i
+  noConflict : ¬ Conflict ws (allNodes ps)
+  inputs : ∀ t, Node.target t ∈ allNodes ps → ∀ i ∈ t.checkedInputs, ¬ InputEscapes i
   outputs : ∀ t, Node.target t ∈ allNodes ps → ∀ o ∈ t.outs, ¬ OutputEscapes ws t o
   testDeps : ¬ BadTestDep (allNodes ps)
 
@@ -388,21 +389,25 @@ structure RelOuts (ns : List Node) : Prop where
   pkg : ∀ t, Node.target t ∈ ns → isAbs t.label.pkg = false
   ident : ∀ t, Node.target t ∈ ns → ∀ o ∈ t.outs, o.kind ≠ .docker → isAbs o.ident = false
 
-theorem outComps_ok (t : Target) (o : Out) : CompsOK (outComps t o) := by
+theorem outComps_ok (ws : Bytes) (t : Target) (o : Out) : CompsOK (outComps ws t o) := by
   apply normComps_ok
   intro c hc
   rcases List.mem_append.mp hc with hc | hc
   · exact splitSlash_noSlash _ c hc
-  · exact splitSlash_noSlash _ c hc
+  · rcases List.mem_append.mp hc with hc | hc
+    · exact splitSlash_noSlash _ c hc
+    · exact splitSlash_noSlash _ c hc
 
-theorem hasConflict_iff {ns : List Node} (hnd : NoDuplicate ns) (hdef : DepsDefined ns) (hrel : RelOuts ns) :
-    hasConflict Cfg.current ns = true ↔ Conflict ns := by
+theorem hasConflict_iff {ws : Bytes} (hws : isAbs ws = true) {ns : List Node} (hnd : NoDuplicate ns)
+    (hdef : DepsDefined ns) (hrel : RelOuts ns) :
+    hasConflict Cfg.current ws ns = true ↔ Conflict ws ns := by
   have hord : ∀ a b, ordered Cfg.current ns a b = true ↔ a = b ∨ Ordered ns a b := by
     intro a b; rw [ordered_iff hnd hdef]; simp [Cfg.current]
   have hpath : ∀ t, Node.target t ∈ ns → ∀ o ∈ t.outs, o.kind ≠ .docker →
-      cleanOutputPath t.label.pkg o.ident = renderRel (outComps t o) := by
+      outKey Cfg.current ws t o.ident = renderAbs (outComps ws t o) := by
     intro t ht o ho hk
-    exact cleanOutputPath_rel (hrel.pkg t ht) (hrel.ident t ht o ho hk)
+    simp only [outKey, Cfg.current, if_true]
+    exact resolvedOutputPath_abs hws (hrel.pkg t ht) (hrel.ident t ht o ho hk)
   have hunord : ∀ (r s : Rec), (!ordered Cfg.current ns r.owner s.owner) = true ↔
       r.owner ≠ s.owner ∧ ¬ Ordered ns r.owner s.owner := by
     intro r s
@@ -433,20 +438,20 @@ theorem hasConflict_iff {ns : List Node} (hnd : NoDuplicate ns) (hdef : DepsDefi
       simp only [Overlap, hko, hkq]
       simp only at hp
       rw [hpath t ht o ho (by simp [hko]), hpath u hu q hq (by simp [hkq])] at hp
-      exact renderRel_inj (outComps_ok t o) (outComps_ok u q) hp
+      exact renderAbs_inj (outComps_ok ws t o) (outComps_ok ws u q) hp
     · obtain ⟨r, ⟨t, ht, o, ho, hko, rfl⟩, s, ⟨u, hu, q, hq, hkq, rfl⟩, ⟨hne, hno⟩, hp⟩ := h
       refine ⟨t, u, ht, hu, hne, hno, o, ho, q, hq, ?_⟩
       simp only [Overlap, hko, hkq]
       simp only [pathsOverlap, Bool.or_eq_true] at hp
       rw [hpath t ht o ho (by simp [hko]), hpath u hu q hq (by simp [hkq])] at hp
-      simpa [Cfg.current, within_iff_prefix (outComps_ok t o) (outComps_ok u q),
-        within_iff_prefix (outComps_ok u q) (outComps_ok t o)] using hp
+      simpa [Cfg.current, within_abs_iff (outComps_ok ws t o) (outComps_ok ws u q),
+        within_abs_iff (outComps_ok ws u q) (outComps_ok ws t o)] using hp
     · obtain ⟨r, ⟨t, ht, o, ho, hko, rfl⟩, s, ⟨u, hu, q, hq, hkq, rfl⟩, ⟨hne, hno⟩, hp⟩ := h
       refine ⟨t, u, ht, hu, hne, hno, o, ho, q, hq, ?_⟩
       simp only [Overlap, hko, hkq]
       simp only at hp
       rw [hpath t ht o ho (by simp [hko]), hpath u hu q hq (by simp [hkq])] at hp
-      simpa [Cfg.current, within_iff_prefix (outComps_ok u q) (outComps_ok t o)] using hp
+      simpa [Cfg.current, within_abs_iff (outComps_ok ws u q) (outComps_ok ws t o)] using hp
   · rintro ⟨t, u, ht, hu, hne, hno, o, ho, q, hq, hov⟩
     have hno' : ¬ Ordered ns u.label t.label := fun h => hno (h.symm)
     cases hko : o.kind <;> cases hkq : q.kind <;> simp only [Overlap, hko, hkq] at hov
@@ -460,20 +465,20 @@ theorem hasConflict_iff {ns : List Node} (hnd : NoDuplicate ns) (hdef : DepsDefi
       refine ⟨_, ⟨u, hu, q, hq, hkq, rfl⟩, _, ⟨t, ht, o, ho, hko, rfl⟩, ⟨fun h => hne h.symm, hno'⟩, ?_⟩
       simp only
       rw [hpath t ht o ho (by simp [hko]), hpath u hu q hq (by simp [hkq])]
-      simpa [Cfg.current, within_iff_prefix (outComps_ok t o) (outComps_ok u q)] using hov
+      simpa [Cfg.current, within_abs_iff (outComps_ok ws t o) (outComps_ok ws u q)] using hov
     · -- dir, file
       right
       refine ⟨_, ⟨t, ht, o, ho, hko, rfl⟩, _, ⟨u, hu, q, hq, hkq, rfl⟩, ⟨hne, hno⟩, ?_⟩
       simp only
       rw [hpath t ht o ho (by simp [hko]), hpath u hu q hq (by simp [hkq])]
-      simpa [Cfg.current, within_iff_prefix (outComps_ok u q) (outComps_ok t o)] using hov
+      simpa [Cfg.current, within_abs_iff (outComps_ok ws u q) (outComps_ok ws t o)] using hov
     · -- dir, dir
       left; right
       refine ⟨_, ⟨t, ht, o, ho, hko, rfl⟩, _, ⟨u, hu, q, hq, hkq, rfl⟩, ⟨hne, hno⟩, ?_⟩
       simp only [pathsOverlap, Bool.or_eq_true]
       rw [hpath t ht o ho (by simp [hko]), hpath u hu q hq (by simp [hkq])]
-      simpa [Cfg.current, within_iff_prefix (outComps_ok t o) (outComps_ok u q),
-        within_iff_prefix (outComps_ok u q) (outComps_ok t o)] using hov
+      simpa [Cfg.current, within_abs_iff (outComps_ok ws t o) (outComps_ok ws u q),
+        within_abs_iff (outComps_ok ws u q) (outComps_ok ws t o)] using hov
     · -- docker, docker
       left; left; left
       exact ⟨_, ⟨t, ht, o, ho, hko, rfl⟩, _, ⟨u, hu, q, hq, hkq, rfl⟩, hov, hne, hno⟩
